@@ -100,7 +100,168 @@ pub fn field_zoo(f: &Fld) -> Vec<Tagged> {
         push(b(v), "small-int");
         push(p - b(v), "neg-small-int");
     }
+    for v in modulus_limb_sharing(p, 64, false) {
+        push(v, "modulus-limb-sharing");
+    }
+    for v in modulus_limb_sharing(p, 32, false) {
+        push(v, "modulus-limb-sharing");
+    }
+    for v in recoding_runs(f.bits) {
+        push(v, "recoding-run");
+    }
+    for v in decimal_structured(p) {
+        push(v, "decimal-structure");
+    }
     z
+}
+
+/// Values that copy whole limbs of the modulus: multi-word comparisons, subtract-with-borrow chains and
+/// conditional reductions behave specially when a word of the operand *equals* the corresponding word of
+/// p (a borrow has to ripple through it, a limb-wise compare has to look further). For every subset of
+/// 64-bit limbs (contiguous runs for 32-bit limbs) the chosen limbs are p's; the highest free limb is
+/// below p's (so the value is < p) unless `above` (then it is above p's: a non-canonical value for
+/// parsers and reducers); lower free limbs are p_i+1, p_i+2, p_i-1, all-ones, 0 or a fixed filler.
+pub fn modulus_limb_sharing(p: &B, w: usize, above: bool) -> Vec<B> {
+    let n = ((p.bits() as usize) + w - 1) / w;
+    let mask_w = (b(1) << w) - b(1);
+    let limb = |i: usize| (p >> (w * i)) & &mask_w;
+    let mut masks: Vec<Vec<bool>> = Vec::new();
+    if n <= 6 {
+        for m in 1u32..((1u32 << n) - 1) {
+            masks.push((0..n).map(|i| m >> i & 1 == 1).collect());
+        }
+    } else {
+        for start in 0..n {
+            for len in 1..n {
+                if start + len <= n {
+                    masks.push((0..n).map(|i| i >= start && i < start + len).collect());
+                }
+            }
+        }
+    }
+    let filler = b(0x9E37_79B9_7F4A_7C15) & &mask_w;
+    let mut out = Vec::new();
+    for m in &masks {
+        let hi_free = (0..n).rev().find(|i| !m[*i]).unwrap();
+        for variant in 0..6u64 {
+            let mut v = b(0);
+            let mut ok = true;
+            for i in 0..n {
+                let pi = limb(i);
+                let l = if m[i] {
+                    pi
+                } else if i == hi_free {
+                    if above {
+                        if &pi + b(1 + variant % 2) > mask_w { ok = false; b(0) } else { &pi + b(1 + variant % 2) }
+                    } else if pi < b(1 + variant % 2) {
+                        ok = false;
+                        b(0)
+                    } else {
+                        &pi - b(1 + variant % 2)
+                    }
+                } else {
+                    match variant {
+                        0 => (&pi + b(1)) & &mask_w,
+                        1 => (&pi + b(2)) & &mask_w,
+                        2 => if pi == b(0) { mask_w.clone() } else { &pi - b(1) },
+                        3 => mask_w.clone(),
+                        4 => b(0),
+                        _ => filler.clone(),
+                    }
+                };
+                v += l << (w * i);
+            }
+            if ok {
+                out.push(v);
+            }
+        }
+    }
+    out
+}
+
+/// Scalars / exponents made of long runs of one window digit: signed-digit and windowed recodings
+/// (width w = 1..8) propagate a carry through a run of digits 2^(w-1)-1 / 2^(w-1) / 2^w-1; the run is
+/// placed in every 64-bit limb with the limb below it at the carry threshold.
+pub fn recoding_runs(bits: usize) -> Vec<B> {
+    let n64 = (bits + 63) / 64;
+    let mut pats: Vec<u64> = Vec::new();
+    for w in 1..=8u32 {
+        for d in [(1u64 << (w - 1)).wrapping_sub(1), 1u64 << (w - 1), (1u64 << w) - 1, (1u64 << (w - 1)) + 1] {
+            if d == 0 {
+                continue;
+            }
+            let mut l = 0u64;
+            let mut sh = 0;
+            while sh < 64 {
+                l |= d << sh;
+                sh += w;
+            }
+            if !pats.contains(&l) {
+                pats.push(l);
+            }
+        }
+    }
+    let mut out = Vec::new();
+    for &pat in &pats {
+        // the pattern in every limb
+        let mut all = b(0);
+        for i in 0..n64 {
+            all += b(pat) << (64 * i);
+        }
+        out.push(all);
+        for i in 0..n64 {
+            out.push(b(pat) << (64 * i));
+            if i > 0 {
+                for below in [pat, pat.wrapping_add(1), u64::MAX, 1u64 << 63, pat.wrapping_sub(1)] {
+                    out.push((b(pat) << (64 * i)) + (b(below) << (64 * (i - 1))));
+                }
+            }
+        }
+    }
+    out
+}
+
+/// Values with structure in their *decimal* expansion (decimal printers and parsers work on groups of
+/// digits): powers of ten, d*10^k, 10^k +- 1, and numbers whose aligned digit groups (group sizes 3..20)
+/// are 0, 1 or all-nines in various positions.
+pub fn decimal_structured(p: &B) -> Vec<B> {
+    let mut out = Vec::new();
+    let ten = b(10);
+    let mut pw = b(1);
+    while &pw < p {
+        out.push(pw.clone());
+        out.push(&pw - b(1));
+        out.push(&pw + b(1));
+        out.push(&pw * b(2) + b(7));
+        pw = &pw * &ten;
+    }
+    for g in [3u32, 4, 8, 9, 16, 18, 19, 20] {
+        let base = num_traits::pow(b(10), g as usize);
+        let nines = &base - b(1);
+        let groups_max = 1 + (p.bits() as usize * 30103 / 100000) / g as usize;
+        for pattern in 0..18u32 {
+            // little-endian list of group values chosen from {0, 1, nines, 5}
+            let choose = |k: usize| -> B {
+                match (pattern / 3u32.pow((k % 3) as u32) + k as u32) % 4 {
+                    0 => b(0),
+                    1 => b(1),
+                    2 => nines.clone(),
+                    _ => b(5),
+                }
+            };
+            let mut v = b(0);
+            let mut m = b(1);
+            for k in 0..groups_max {
+                let gval = if k == groups_max - 1 { b(1 + (pattern % 2) as u64) } else { choose(k + pattern as usize) };
+                v += gval * &m;
+                m = &m * &base;
+            }
+            if &v < p {
+                out.push(v);
+            }
+        }
+    }
+    out
 }
 
 /// a smaller core zoo (for all-pairs work in quick tiers)
@@ -174,6 +335,9 @@ pub fn scalar_int_zoo(r: &B) -> Vec<Tagged> {
     z.push(((b(1) << 768) - b(1), "very-long"));
     z.push((r * r * r, "very-long"));
     z.push(((r * r) << 256, "very-long"));
+    for v in recoding_runs(256) {
+        z.push((v, "recoding-run"));
+    }
     z
 }
 
@@ -230,6 +394,25 @@ pub fn bytes_zoo(f: &Fld, rng: &mut impl RngCore, nrand: usize) -> Vec<(Vec<u8>,
     for v in threshold_sweep(p, f.bits - 1, rng, 1) {
         if fits(&v) {
             z.push((to_le(&v, n), "p+-delta"));
+        }
+    }
+    for w in [64usize, 32] {
+        for (above, class) in [(false, "modulus-limb-sharing"), (true, "modulus-limb-sharing-above")] {
+            for (i, v) in modulus_limb_sharing(p, w, above).into_iter().enumerate() {
+                if !fits(&v) {
+                    continue;
+                }
+                z.push((to_le(&v, n), class));
+                if i % 3 == 0 {
+                    // embedded in longer strings: as the low chunk, as a middle chunk, as the high chunk
+                    let mut lo = to_le(&v, n);
+                    lo.extend(to_le(&(p - b(1)), n));
+                    z.push((lo, class));
+                    let mut hi = vec![0xa5u8; n / 2];
+                    hi.extend(to_le(&v, n));
+                    z.push((hi, class));
+                }
+            }
         }
     }
     z.push((to_le(&(b(1) << f.bits), n), "2^bits"));
